@@ -116,7 +116,8 @@ def run(tier):
     run = Run(PROP, tier, 'proof')
     spec_selfcheck()
     h = build()
-    msyn = h.monomorphise(['i32', 'f32'], bound='<S: BaseNum>', method_syntax='only', soft=True)
+    msyn = h.monomorphise(['i32', 'f32'], bound='<S: BaseNum>', kinds=None, method_syntax='only', soft=True)
+    msyn += h.monomorphise(['f32', 'f64'], bound='<S: BaseFloat>', kinds=None, method_syntax='only', soft=True)
     nbase = len(h.specs)
     mono = h.monomorphise(['i32', 'u8', 'i64', 'f32', 'f64']) if tier == 'thorough' else []
     S, inv, meta = facts.extract(PROP, h.src())
